@@ -62,7 +62,8 @@ class BaseFiles(Generic[Interface]):
         if path == "/":
             abspath += "/"
 
-        if os.path.relpath(abspath, self.directory).startswith(".."):
+        relpath = os.path.relpath(abspath, self.directory)
+        if relpath == os.pardir or relpath.startswith(os.pardir + os.sep):
             return None
 
         return abspath
